@@ -30,7 +30,7 @@ static int ngot, nexp;
 static void expect(int kind, int a) { if (nexp < 32) { exp_[nexp].kind = kind; exp_[nexp].a = a; } nexp++; }
 
 enum { O_SP_ALLOC = 1, O_SP_ALLOC0, O_SP_SHARE, O_SP_SWAP, O_SP_RESET, O_WP_FROM, O_WP_LOCK, O_WP_RESET, O_WP_SWAP,
-       O_UP_ALLOC, O_UP_ALLOC_NOCLR, O_UP_ALLOC0, O_UP_RELEASE, O_UP_SWAP, O_UP_RESET };
+       O_UP_ALLOC, O_UP_ALLOC_NOCLR, O_UP_ALLOC0, O_UP_RELEASE, O_UP_SWAP, O_UP_RESET, O_SP_ALLOC_HUGE, O_UP_ALLOC_HUGE };
 #define OP(c, a, b) ((mc_op_t)((c) | ((a) << 8) | ((b) << 16)))
 #define OC(o) ((o) & 0xff)
 #define OA(o) (((o) >> 8) & 0xff)
@@ -49,13 +49,14 @@ static void w_setup(int cfg, int thorough)
     if (!MODE) {
         snprintf(cfgdesc, sizeof cfgdesc, "%d shared + %d weak pointer objects, allocations with clear callback, alloc(0), share/lock into occupied pointers", NS, NW);
         for (i = 0; i < NS; i++) { w_ops[w_nops++] = OP(O_SP_ALLOC, i, 0); w_ops[w_nops++] = OP(O_SP_ALLOC0, i, 0); w_ops[w_nops++] = OP(O_SP_RESET, i, 0); }
+        w_ops[w_nops++] = OP(O_SP_ALLOC_HUGE, 0, 0); w_ops[w_nops++] = OP(O_SP_ALLOC_HUGE, 1, 0);
         for (i = 0; i < NS; i++) for (j = 0; j < NS; j++) if (i != j) w_ops[w_nops++] = OP(O_SP_SHARE, i, j);
         for (i = 0; i < NS; i++) for (j = i + 1; j < NS; j++) w_ops[w_nops++] = OP(O_SP_SWAP, i, j);
         for (w = 0; w < NW; w++) { for (i = 0; i < NS; i++) { w_ops[w_nops++] = OP(O_WP_FROM, w, i); w_ops[w_nops++] = OP(O_WP_LOCK, w, i); } w_ops[w_nops++] = OP(O_WP_RESET, w, 0); }
         w_ops[w_nops++] = OP(O_WP_SWAP, 0, 1); if (NW > 2) w_ops[w_nops++] = OP(O_WP_SWAP, 1, 2);
     } else {
         snprintf(cfgdesc, sizeof cfgdesc, "%d unique pointer objects: alloc with/without clear callback, alloc(0), release, swap, reset", NUP);
-        for (i = 0; i < NUP; i++) { w_ops[w_nops++] = OP(O_UP_ALLOC, i, 0); w_ops[w_nops++] = OP(O_UP_ALLOC_NOCLR, i, 0); w_ops[w_nops++] = OP(O_UP_ALLOC0, i, 0); w_ops[w_nops++] = OP(O_UP_RELEASE, i, 0); w_ops[w_nops++] = OP(O_UP_RESET, i, 0); }
+        for (i = 0; i < NUP; i++) { w_ops[w_nops++] = OP(O_UP_ALLOC, i, 0); w_ops[w_nops++] = OP(O_UP_ALLOC_NOCLR, i, 0); w_ops[w_nops++] = OP(O_UP_ALLOC0, i, 0); w_ops[w_nops++] = OP(O_UP_RELEASE, i, 0); w_ops[w_nops++] = OP(O_UP_RESET, i, 0); w_ops[w_nops++] = OP(O_UP_ALLOC_HUGE, i, 0); }
         w_ops[w_nops++] = OP(O_UP_SWAP, 0, 1);
     }
 }
@@ -112,7 +113,9 @@ static void drain_free_events(void)
         shim_ev *e = &shim_evs[evpos];
         if (e->kind == EV_FREE && e->blk >= 0) {
             shim_blk *b = &shim_blks[e->blk];
-            int a = b->tag, kind = (a >= 0 && a < MAXA && b->p == AL[a].mem) ? E_FREE_MEM : E_FREE_BOOK;
+            int a = b->tag, kind;
+            if (a == MAXA - 1) continue;          /* the half-built bookkeeping block of an allocation that could not be completed: allocated and freed within the operation */
+            kind = (a >= 0 && a < MAXA && b->p == AL[a].mem) ? E_FREE_MEM : E_FREE_BOOK;
             if (ngot < 32) { got[ngot].kind = kind; got[ngot].a = a; }
             ngot++;
         }
@@ -145,6 +148,12 @@ static void w_apply(mc_op_t o)
         if (OC(o) == O_SP_ALLOC) { na = new_alloc(); shim_next_tag = na; }
         SHIM_CALL(ab, cstl_shared_ptr_alloc(&SP[a], OC(o) == O_SP_ALLOC ? 24 : 0, cb_clear));
         if (na >= 0) { AL[na].owners = 1; AL[na].weaks = 0; AL[na].mem_live = AL[na].book_live = 1; AL[na].has_clr = 1; m_sp[a] = na; if (!ab) AL[na].mem = cstl_shared_ptr_get(&SP[a]); }
+        break;
+    case O_SP_ALLOC_HUGE:     /* a size that cannot be provided: the old target is released, the pointer ends up empty, nothing else happens */
+        if (m_sp[a] >= 0) MC_COUNT(K_RETARGET_OWNING);
+        m_sp_release(m_sp[a]); m_sp[a] = -1;
+        shim_next_tag = MAXA - 1;
+        SHIM_CALL(ab, cstl_shared_ptr_alloc(&SP[a], SIZE_MAX / 2, cb_clear));
         break;
     case O_SP_SHARE:          /* share(SP[a] -> SP[b]) */
         if (m_sp[b] >= 0) MC_COUNT(K_RETARGET_OWNING);
@@ -191,6 +200,13 @@ static void w_apply(mc_op_t o)
         if (!zero) { na = new_alloc(); shim_next_tag = na; AL[na].cookie = a; }
         SHIM_CALL(ab, cstl_unique_ptr_alloc(&UP[a], zero ? 0 : 16, clr ? cb_clear : NULL, &cookies[a]));
         if (na >= 0) { AL[na].mem_live = 1; AL[na].has_clr = clr; m_up[a] = na; if (!ab) AL[na].mem = cstl_unique_ptr_get(&UP[a]); }
+        break;
+    }
+    case O_UP_ALLOC_HUGE: {
+        int old = m_up[a];
+        if (old >= 0) { if (AL[old].has_clr) expect(E_CLEAR, old); expect(E_FREE_MEM, old); AL[old].mem_live = 0; AL[old].born_op = opno; m_up[a] = -1; }
+        shim_next_tag = MAXA - 1;
+        SHIM_CALL(ab, cstl_unique_ptr_alloc(&UP[a], SIZE_MAX / 2, cb_clear, &cookies[a]));
         break;
     }
     case O_UP_RELEASE: {
@@ -316,6 +332,8 @@ static void w_opname(mc_op_t o, char *b, size_t n)
     switch (OC(o)) {
     case O_SP_ALLOC: snprintf(b, n, "shared_alloc(sp%d,24,clr)", OA(o)); break;
     case O_SP_ALLOC0: snprintf(b, n, "shared_alloc(sp%d,0,clr)", OA(o)); break;
+    case O_SP_ALLOC_HUGE: snprintf(b, n, "shared_alloc(sp%d,SIZE_MAX/2,clr)", OA(o)); break;
+    case O_UP_ALLOC_HUGE: snprintf(b, n, "unique_alloc(up%d,SIZE_MAX/2,clr,priv%d)", OA(o), OA(o)); break;
     case O_SP_SHARE: snprintf(b, n, "share(sp%d->sp%d)", OA(o), OB(o)); break;
     case O_SP_SWAP: snprintf(b, n, "swap(sp%d,sp%d)", OA(o), OB(o)); break;
     case O_SP_RESET: snprintf(b, n, "reset(sp%d)", OA(o)); break;
